@@ -2,8 +2,9 @@
 // property: C09
 // harness-file: messages__request.rs
 // harness: c09_request_validate_spec
-// failed-check: attempt to add with overflow @ src/messages/request.rs:93:12 in function messages::request::Request::validate
-// native-result: src/messages/request.rs:93:12: attempt to add with overflow
+// config: 
+// failed-check: attempt to add with overflow @ src/messages/request.rs:97:12 in function messages::request::Request::validate
+// native-result: src/messages/request.rs:97:12: attempt to add with overflow
 // rerun: cd /verif && ./check C09 --replay /verif/evidence/replay/C09-c09_request_validate_spec.rs
 /// Test generated for harness `messages::request::verif_kani::c09_request_validate_spec` 
 ///
